@@ -521,9 +521,23 @@ def stress_threads(seconds=8, seed=0, nthreads=12, switch=1e-6):
             time.sleep(0.00002)
         return local
 
+    # module-level helpers every derivation goes through (a shared cache or scratch variable there is shared by
+    # ALL wallets of the process): every line of these short functions is a preemption point
+    shared_helpers = ("hmac_sha512", "hash160", "hash256", "sha256", "big_endian_to_int", "int_to_big_endian")
+
+    def local_all(frame, event, arg):
+        if event == "line":
+            time.sleep(0.00002)
+        return local_all
+
     def tracer(frame, event, arg):
-        if event == "call" and frame.f_code.co_filename.endswith(targets) and "btc_hd_wallet" in frame.f_code.co_filename:
+        if event != "call" or "btc_hd_wallet" not in frame.f_code.co_filename:
+            return None
+        fn = frame.f_code.co_filename
+        if fn.endswith(targets) or fn.endswith("keys.py"):
             return local
+        if fn.endswith("helper.py") and frame.f_code.co_name in shared_helpers:
+            return local_all
         return None
     old = sys.getswitchinterval()
     sys.setswitchinterval(switch)
